@@ -31,12 +31,12 @@ func runC04(c *Ctx) {
 	now := baseNow
 	const id = "id-7f3a9c0e1b"
 	const id2 = "id-55aa55aa55"
-	sets := [][]string{{}, {id}, {id, id2}, {""}, {"", id}, {id[:len(id)-1]}, {id + "x"}, {id2}, {strings.ToUpper(id)}}
+	sets := [][]string{{}, {id}, {id, id2}, {""}, {"", id}, {id[:len(id)-1]}, {id + "x"}, {id2}, {strings.ToUpper(id)}, {id + " "}, {" "}}
 	for i := 0; i < 3; i++ {
 		sets = append(sets, []string{fmt.Sprintf("id-%08x", c.Rng.Uint32()), id})
 	}
 	// InResponseTo values: nil = absent
-	irts := []*string{sp(id), sp(id2), sp("id-0000000000"), sp(id[:len(id)-1]), sp(id + "x"), sp(""), nil, sp(strings.ToUpper(id))}
+	irts := []*string{sp(id), sp(id2), sp("id-0000000000"), sp(id[:len(id)-1]), sp(id + "x"), sp(""), nil, sp(strings.ToUpper(id)), sp(id + " "), sp(" " + id), sp("\n" + id + "\n"), sp(" ")}
 	irtName := func(p *string) string {
 		if p == nil {
 			return "absent"
@@ -278,6 +278,7 @@ func c04Middleware(c *Ctx) {
 		for _, ncookies := range []int{0, 1, 2} {
 			for ci, irt := range []*string{sp(id), sp("id-0000000000"), sp(""), nil, sp(id), sp("id-0000000000"), sp(""), nil} {
 				own := ci >= 4 // the second pass keeps samlsp.New's own ServiceProvider
+				decoy := (ci+ncookies)%2 == 1
 				n++
 				cfg := defaultCfg()
 				cfg.AllowIdpInit = allow
@@ -325,6 +326,21 @@ func c04Middleware(c *Ctx) {
 					for _, ck := range cookies {
 						req.AddCookie(ck)
 					}
+					if decoy {
+						// a token of the SAME deployment that is not a tracking token (a session token), and a
+						// tracking-looking cookie that is not a token at all, under tracking-cookie names: neither
+						// declares a request outstanding
+						rr := httptest.NewRecorder()
+						req1, _ := http.NewRequest("GET", "https://sp.example.com/page", nil)
+						m.CreateSessionFromAssertion(rr, req1, &saml.Assertion{Subject: &saml.Subject{NameID: &saml.NameID{Value: "someone"}}}, "/")
+						for _, ck := range rr.Result().Cookies() {
+							if ck.Name == "token" {
+								req.AddCookie(&http.Cookie{Name: "saml_someone", Value: ck.Value})
+								req.AddCookie(&http.Cookie{Name: "saml_", Value: ck.Value})
+							}
+						}
+						req.AddCookie(&http.Cookie{Name: "saml_junk", Value: "not.a.token"})
+					}
 					rr := httptest.NewRecorder()
 					m.ServeHTTP(rr, req)
 					status = rr.Code
@@ -338,7 +354,7 @@ func c04Middleware(c *Ctx) {
 					irtS = "'" + *irt + "'"
 				}
 				c.Count("class/middleware")
-				c.Add(g, &Case{Key: map[string]string{"class": "middleware", "allow_idp_initiated": fmt.Sprint(allow), "tracking_cookies": fmt.Sprint(ncookies), "irt": irtS, "sp_from_new": fmt.Sprint(own)},
+				c.Add(g, &Case{Key: map[string]string{"class": "middleware", "allow_idp_initiated": fmt.Sprint(allow), "tracking_cookies": fmt.Sprint(ncookies), "irt": irtS, "sp_from_new": fmt.Sprint(own), "decoy_cookies": fmt.Sprint(decoy)},
 					Input: map[string]any{"allow_idp_initiated": allow, "tracking_cookies": ncookies, "in_response_to": irtS},
 					Obs:   map[string]any{"status": status, "accepted": accepted, "expected": want, "panic": panicked}, Term: fmt.Sprint(ok), ImplSpecOK: Bptr(ok),
 					Dedup: fmt.Sprintf("%v/%d/%s/%v", allow, ncookies, irtS, own)})
